@@ -8,6 +8,8 @@ import GormModel.Lemmas.Assoc
 import GormModel.Lemmas.AssocPoly        -- polymorphic relations over a shared target table: link = (owner type, owner id, target)
 import GormModel.Lemmas.AssocRef        -- referenced (non-primary) columns, argument records, zero-argument calls (regenerated sites)
 import GormModel.Lemmas.AssocFindings   -- kernel-checked witnesses of the listed findings + composite-key partial theorems
+import GormModel.Lemmas.AssocHandle     -- handles as values: Unscoped() is pure, sticky errors, reuse of a used *gorm.DB (F12h)
+import GormModel.Lemmas.AssocKeys       -- record identity over typed key tuples: the IN lists name exactly the named tuples
 namespace Gorm
 open Gorm.Assoc
 
@@ -1184,6 +1186,129 @@ theorem C12_single_valued_empty_slice_counterexample :
 
 /-- non-vacuity: a record whose referenced column differs from its primary key, named in a Delete -/
 example : AssocRef.btDelete AssocRef.sound [⟨1, 5, 7⟩] [⟨3, 7, 0⟩] [⟨1, 5, 7⟩, ⟨2, 6, 7⟩] = [⟨1, 5, 0⟩, ⟨2, 6, 7⟩] := by
+  decide
+
+
+/-! ## Handles are values (round 3): `a := db.Model(&x).Association(f)` kept in a variable, `a.Unscoped()` called on it -/
+
+/-- regenerated facts: `Association.Unscoped` returns a NEW `&Association{DB, Relationship, Error, Unscope: true}` literal, no
+    function of association.go assigns to an `Unscope` (or `DB`) field of an existing struct, `Unscoped` assigns to no field at
+    all, no other literal sets `Unscope`; every exported operation starts with `if association.Error == nil`. -/
+theorem C12_handle_current_tree : unscopedFresh = true ∧ errorSticky = true := by decide
+
+/-- "… unless Unscoped is used": for EVERY program over handle variables, an operation runs Unscoped exactly when the variable it
+    is called through was bound to the RESULT of `Unscoped()`; calling `Unscoped()` on a handle (result dropped, kept, used for a
+    read) never changes what later calls through that handle do. -/
+theorem C12_handle_unscoped_is_pure (card1 : Nat → Bool) (prog : List Instr) (r : Nat) (o : Op) (d : Bool)
+    (he : Ev.op r o d ∈ execAll true card1 {} prog) : o.unscoped = d :=
+  execAll_flag card1 prog {} hinv_init r o d he
+
+/-- … so the operations a program performs on a relation are those of the value semantics of handles, and every theorem above
+    about `run` applies to them with the DECLARED flags -/
+theorem C12_handle_ops_are_declared (card1 : Nat → Bool) (prog : List Instr) (rel : Nat) :
+    opsOf rel (execAll true card1 {} prog) = declaredOpsOf rel (execAll true card1 {} prog) :=
+  opsOf_eq_declared rel _ (fun r o d he => execAll_flag card1 prog {} hinv_init r o d he)
+
+/-- why the regenerated fact matters: an `Unscoped` that sets the flag on its receiver turns a later plain `Clear()` through the
+    ORIGINAL handle into an Unscoped one (records deleted instead of unlinked) -/
+theorem C12_handle_receiver_mutation_counterexample :
+    execAll false (fun _ => false) {} [.assoc 0 1, .unscoped none 0, .call 0 .clear [] false]
+      = [.op 1 ⟨.clear, true, []⟩ false] ∧
+    execAll true (fun _ => false) {} [.assoc 0 1, .unscoped none 0, .call 0 .clear [] false]
+      = [.op 1 ⟨.clear, false, []⟩ false] := by
+  decide
+
+/-- a handle that has failed refuses every later call (association.Error is never reset) and nothing runs -/
+theorem C12_handle_error_sticky (fresh : Bool) (card1 : Nat → Bool) (h : Heap) (v a : Nat) (kind : OpKind)
+    (vals : List (List Nat)) (bad : Bool) (hv : h.var v = some a) (he : (h.cell a).err = true) :
+    exec fresh card1 h (.call v kind vals bad) = (h, [.refused (h.cell a).rel]) := by
+  simp [exec, hv, he]
+
+/-- the copy made by `Unscoped()` inherits the error of its receiver; a failure AFTER the copy stays with the struct it hit -/
+theorem C12_handle_error_copy_example :
+    execAll true (fun _ => false) {} [.assoc 0 1, .call 0 .append [[11]] true, .unscoped (some 1) 0, .call 1 .clear [] false,
+                                      .assoc 2 1, .unscoped (some 3) 2, .call 2 .append [[11]] true, .call 3 .clear [] false]
+      = [.failed 1, .refused 1, .failed 1, .op 1 ⟨.clear, true, []⟩ true] := by
+  decide
+
+/-- F12h (listed finding): a second Delete through the SAME kept handle goes through a *gorm.DB that still carries the Model /
+    WHERE clauses / ReflectValue of the first one - the model does not predict it (on the real code: `primary key required`) -/
+theorem C12_handle_reuse_counterexample :
+    opsOf 1 (execAll true (fun _ => false) {} [.assoc 0 1, .call 0 .append [[11, 12]] false, .call 0 .delete [[11]] false,
+                                               .call 0 .delete [[12]] false]) = none ∧
+    opsOf 1 (execAll true (fun _ => false) {} [.assoc 0 1, .call 0 .append [[11, 12]] false, .call 0 .delete [[11]] false,
+                                               .assoc 0 1, .call 0 .delete [[12]] false])
+      = some [⟨.append, false, [[11, 12]]⟩, ⟨.delete, false, [[11]]⟩, ⟨.delete, false, [[12]]⟩] := by
+  decide
+
+/-- … and outside that pattern (no call goes through an already used *gorm.DB) every call of the program is an operation of the
+    sequence, a refused call or a failed call: the operations of each relation are defined -/
+theorem C12_handle_reuse_partial (rel : Nat) (es : List Ev) (hclean : ∀ r, Ev.polluted r ∉ es) :
+    ∃ ops, opsOf rel es = some ops := by
+  induction es with
+  | nil => exact ⟨[], rfl⟩
+  | cons e es ih =>
+    obtain ⟨ops, ho⟩ := ih (fun r hm => hclean r (List.mem_cons_of_mem _ hm))
+    cases e with
+    | op r o d =>
+      by_cases hr : r = rel
+      · exact ⟨o :: ops, by simp [opsOf, hr, ho]⟩
+      · exact ⟨ops, by simp [opsOf, hr, ho]⟩
+    | polluted r => exact absurd (by simp) (hclean r)
+    | refused r => exact ⟨ops, by simp [opsOf, ho]⟩
+    | failed r => exact ⟨ops, by simp [opsOf, ho]⟩
+    | read r u => exact ⟨ops, by simp [opsOf, ho]⟩
+    | nohandle => exact ⟨ops, by simp [opsOf, ho]⟩
+
+/-! ## Record identity is exact key equality (round 3): letter case, blanks, digits, non-ASCII -/
+
+/-- regenerated fact: `utils.ToStringKey` prints a string key VERBATIM (`case string: results[idx] = v`), `[]byte` as `string(v)`,
+    `uint` in decimal - what `KeyVal.render` transcribes -/
+theorem C12_key_render_current_tree :
+    Gen.toStringKeyCases = [("string", ["v"]), ("[]byte", ["string(v)"]), ("uint", ["strconv.FormatUint(uint64(v), 10)"]),
+                            ("default", ["\"nil\"", "fmt.Sprint(reflect.Indirect(vv).Interface())"])] := by
+  decide
+
+/-- string keys of one arity without the separator `_`: equal key strings mean equal key tuples -/
+theorem C12_string_keys_exact (n : Nat) (r r' : IdRow) (h : StrKey n r) (h' : StrKey n r') (hk : r.keyStr = r'.keyStr) :
+    r.vals = r'.vals :=
+  strKey_exact n r r' h h' hk
+
+/-- NONE FOREIGN: whatever partition into variadic arguments a call uses, every tuple of the IN / NOT IN list built by
+    `GetIdentityFieldValuesMapFromValues` is the key of a record the call names -/
+theorem C12_named_tuples_sound (args : List ArgV) (t : List KeyVal) (h : t ∈ (identityFromValues args).values) :
+    t ∈ namedTuples args := by
+  rw [fromValues_values] at h
+  obtain ⟨a, ha, hta⟩ := List.mem_flatMap.1 h
+  obtain ⟨r, hr, hv, hz⟩ := arg_values_sound a t hta
+  unfold namedTuples
+  refine List.mem_filterMap.2 ⟨r, List.mem_flatMap.2 ⟨a, ha, hr⟩, ?_⟩
+  simp [hz, hv]
+
+/-- NONE MISSING: for string keys (one arity, no separator) EVERY named record's key tuple is in the list - two records whose
+    keys differ in any character (letter case, a blank, "1" vs "01", "ß" vs "ss") are both named -/
+theorem C12_named_tuples_complete (n : Nat) (args : List ArgV) (hf : ∀ a ∈ args, AddrKeyFun a.rows)
+    (hs : ∀ a ∈ args, ∀ r ∈ a.rows, StrKey n r) (t : List KeyVal) (h : t ∈ namedTuples args) :
+    t ∈ (identityFromValues args).values := by
+  rw [fromValues_values]
+  unfold namedTuples at h
+  obtain ⟨r, hr, hrt⟩ := List.mem_filterMap.1 h
+  obtain ⟨a, ha, hra⟩ := List.mem_flatMap.1 hr
+  by_cases hz : allZero r.key = true
+  · simp [hz] at hrt
+  · have hz' : allZero r.key = false := by simpa using hz
+    simp [hz'] at hrt
+    subst hrt
+    exact List.mem_flatMap.2 ⟨a, ha, arg_values_complete n a (hf a ha) (hs a ha) r hra hz'⟩
+
+/-- non-vacuity + the seeded shape: `Delete(&[]Locale{en, EN, "en "})` names three records; the clean-up of the in-memory field
+    drops exactly those; a fourth, un-named "En" stays -/
+theorem C12_key_case_blank_example :
+    let k (s : String) (a : Nat) : IdRow := ⟨a, [⟨.str s.toList, false⟩]⟩
+    (identityFromValues [.many [k "en" 1, k "EN" 2, k "en " 3]]).values.length = 3 ∧
+    (cleanSlice [k "en" 1, k "En" 4, k "EN" 2] [.many [k "en" 5, k "EN" 6]]).map (·.addr) = [4] ∧
+    cleanSlice [k "en" 1, k "En" 4, k "EN" 2] [.many [k "en" 5, k "EN" 6]]
+      = cleanExact [k "en" 1, k "En" 4, k "EN" 2] [.many [k "en" 5, k "EN" 6]] := by
   decide
 
 end Gorm
